@@ -278,7 +278,15 @@ func (m *Machine) exec(fr *frame, ins ssa.Instruction) {
 		x := m.get(fr, i.X)
 		switch i.Op {
 		case token.MUL:
-			fr.regs[i] = m.load(x.(Ptr))
+			v := m.load(x.(Ptr))
+			if t, ok := v.(*Term); ok && t.W == 8 {
+				if w := widthOf(i.Type()); w > 8 {
+					// a load of a wider integer through a reinterpreted pointer into a byte array:
+					// little-endian, as on every supported target
+					v = m.loadWide(x.(Ptr), w)
+				}
+			}
+			fr.regs[i] = v
 		case token.SUB:
 			fr.regs[i] = s.Neg(x.(*Term))
 		case token.NOT, token.XOR:
@@ -362,6 +370,18 @@ func (m *Machine) exec(fr *frame, ins ssa.Instruction) {
 				return
 			}
 			k := m.index(idx, n)
+			if _, isArr := (*m.cell(a)).(*ArrayV); !isArr {
+				// (*[n]T)(unsafe.Pointer(&b[i])): the pointer designates byte i of a byte array; element
+				// k of the reinterpreted array starts k*sizeof(T) bytes further on
+				if off, ok := m.byteOffset(a); ok {
+					if w := widthOf(at.Elem()); w >= 8 {
+						p := Ptr{Obj: a.Obj, Path: append(append([]int(nil), a.Path[:len(a.Path)-1]...), off+k*(w/8))}
+						fr.regs[i] = p
+						return
+					}
+				}
+				m.unsupported("IndexAddr through a reinterpreted pointer")
+			}
 			fr.regs[i] = sub(a, k)
 		default:
 			m.unsupported(fmt.Sprintf("IndexAddr on %T", x))
@@ -1070,6 +1090,21 @@ func (m *Machine) convert(x Value, from, to types.Type) Value {
 			return v
 		}
 	case Ptr:
+		if b, ok := tu.(*types.Basic); ok && b.Kind() == types.Uintptr {
+			// the address of a byte of an array: an unconstrained base per object plus the byte
+			// offset (any alignment of the base is realisable through windows of larger allocations)
+			if v.Obj == nil {
+				return s.Const(64, 0)
+			}
+			if off, ok := m.byteOffset(v); ok {
+				base := s.Var(fmt.Sprintf("addr_obj%d", v.Obj.ID), 64)
+				// Go's allocator aligns objects of 8 bytes or more to 8: other alignments of a byte are
+				// reached through windows into such an object (and so can be replayed natively)
+				m.Assume(s.Eq(s.And(base, s.Const(64, 7)), s.Const(64, 0)))
+				return s.Add(base, s.Const(64, uint64(off)))
+			}
+			m.unsupported("address of a cell that is not a byte of an array")
+		}
 		return v // unsafe.Pointer conversions keep the pointer
 	case Opaque:
 		if v.Kind == "float" {
@@ -1113,4 +1148,44 @@ func (m *Machine) encodeRuneSym(v *Term, signed bool) Str {
 		return Str{[]*Term{b(s.Or(c(0xE0), s.LShr(r, c(12)))), cont(6), cont(0)}}
 	}
 	return Str{[]*Term{b(s.Or(c(0xF0), s.LShr(r, c(18)))), cont(12), cont(6), cont(0)}}
+}
+
+// byteOffset: p designates element i of an array of 8-bit cells; returns i.
+func (m *Machine) byteOffset(p Ptr) (int, bool) {
+	if p.Obj == nil || len(p.Path) == 0 || p.Sym != nil {
+		return 0, false
+	}
+	parent := Ptr{Obj: p.Obj, Path: p.Path[:len(p.Path)-1]}
+	arr, ok := (*m.cell(parent)).(*ArrayV)
+	if !ok {
+		return 0, false
+	}
+	i := p.Path[len(p.Path)-1]
+	if i < 0 || i >= len(arr.E) {
+		return 0, false
+	}
+	if t, ok := arr.E[i].(*Term); !ok || t.W != 8 {
+		return 0, false
+	}
+	return i, true
+}
+
+// loadWide reads a w-bit little-endian integer starting at the byte p designates.
+func (m *Machine) loadWide(p Ptr, w int) Value {
+	off, ok := m.byteOffset(p)
+	if !ok {
+		m.unsupported("wide load through a pointer that is not into a byte array")
+	}
+	parent := Ptr{Obj: p.Obj, Path: p.Path[:len(p.Path)-1]}
+	arr := (*m.cell(parent)).(*ArrayV)
+	n := w / 8
+	if off+n > len(arr.E) {
+		m.unsupported("wide load past the end of the byte array")
+	}
+	m.accessRange(Slice{Base: parent, Off: off, Len: n, Cap: n}, false)
+	v := arr.E[off+n-1].(*Term)
+	for j := n - 2; j >= 0; j-- {
+		v = m.S.Concat(v, arr.E[off+j].(*Term))
+	}
+	return v
 }
